@@ -4,6 +4,8 @@ Proved here: which keys the variables object has.  That the values equal the arg
 the declared GraphQL types and that custom marshalers are applied at every list depth is decided
 on the compiled helpers (recording client, gqlparser's variable coercion).
 -/
+import Genq.Model.CodecSkel
+import Genq.Extracted.Codec
 import Genq.Model.Vars
 namespace Genq.Vars
 
@@ -62,3 +64,12 @@ example : keys [⟨"a", true, false, .zeroScalar⟩, ⟨"b", false, false, .nilP
     = ["b", "c"] := by decide
 
 end Genq.Vars
+
+namespace Genq
+/-- **C04_marshal_template_tie** — the marshal template (which also produces the MarshalJSON of input objects and of
+    the hidden `__<Op>Input` struct: per-slice-depth loop, nil-pointer skip, omitempty copied to the premarshal
+    struct), FlattenedFields and the decision which structs get generated (un)marshalers, as extracted from /repo
+    on this run, are the ones the checks were written against. -/
+theorem C04_marshal_template_tie :
+    Extracted.marshalTmpl = CodecSkel.marshalTmpl ∧ Extracted.flattenedFieldsSkeleton = CodecSkel.flattenedFieldsSkeleton := ⟨rfl, rfl⟩
+end Genq
